@@ -89,6 +89,7 @@ where
 {
     fn run(self: Rc<Self>, state: State<U, E>) -> SResult<U, E> {
         let smap = state.get_smap();
+        let bindings_before = smap.len();
         let dstore = state.get_dstore();
 
         let uwalk = smap.walk(&self.u);
@@ -156,7 +157,7 @@ where
                 //   v = u - w  =>  [umin - wmax .. umax - wmin]
                 //
                 // The constraint is not dropped until all variables converge into numbers.
-                Ok(state
+                state
                     .process_domain(
                         &wwalk,
                         Rc::new(FiniteDomain::from(
@@ -175,7 +176,7 @@ where
                             umin.saturating_sub(wmax)..=umax.saturating_sub(wmin),
                         )),
                     )?
-                    .with_constraint(self))
+                    .keep_constraint(self, bindings_before)
             }
             // If all operators do not yet have domains, then keep the constraint until it can
             // be used to constrain some domains.
